@@ -99,6 +99,45 @@ def failThrough (hasUnwrap : Bool) : List Level → GoErr → GoErr
 def graphFailThrough (hasUnwrap : Bool) (levels : List Level) (e : GoErr) : GoErr :=
   failThrough hasUnwrap levels (newGraphRunError e)
 
+/-! ### the context of the run ends (graph_run.go, top of the step loop)
+
+  Between two steps the loop looks at `ctx.Done()`; when it is closed the run stops with
+  `newGraphRunError(fmt.Errorf("…: %w", ctx.Err()))`.  What `ctx.Err()` is depends on HOW the
+  context ended: `cancel()` → `context.Canceled`, an expired deadline / timeout →
+  `context.DeadlineExceeded`, a `context.Context` of the caller's own → whatever its `Err()`
+  returns.  `CtxEnd` is that cause; the sentinels have the fixed identities below. -/
+
+def canceledId : Nat := 1001
+def deadlineId : Nat := 1002
+
+inductive CtxEnd where
+  /-- `cancel()` (also `WithCancelCause`: `Err()` stays `context.Canceled`) -/
+  | canceled
+  /-- deadline / timeout expired (also `WithTimeoutCause`) -/
+  | deadline
+  /-- a context type of the caller whose `Err()` returns its own comparable error value -/
+  | custom (id : Nat)
+  deriving Repr, DecidableEq
+
+/-- identity of the value `ctx.Err()` returns -/
+def CtxEnd.id : CtxEnd → Nat
+  | .canceled => canceledId
+  | .deadline => deadlineId
+  | .custom i => i
+
+/-- what the step loop wraps when it finds the context done.  `reportsCtxErr` is the source fact
+    "the `%w` operand is `ctx.Err()` of the run's own context"; the other value stands for a
+    fixed cancellation sentinel built once (whatever made the context end). -/
+def loopCtxError (reportsCtxErr : Bool) (c : CtxEnd) : GoErr :=
+  .wrapf (.leaf (if reportsCtxErr then c.id else canceledId))
+
+/-- the error the outermost run returns when the context ends while the graph reached through
+    the first `endAt` of `levels` is between two steps (that graph's loop is the one that
+    notices: the enclosing loops are waiting for their sub-graph node).  `endAt = 0`: the
+    outermost graph itself — in particular a context that is already done when the run starts. -/
+def ctxEndThrough (hasUnwrap reportsCtxErr : Bool) (levels : List Level) (endAt : Nat) (c : CtxEnd) : GoErr :=
+  graphFailThrough hasUnwrap (levels.take endAt) (loopCtxError reportsCtxErr c)
+
 /-- What a user node body may return: an error that is not itself framework-made. -/
 def userErr : GoErr → Bool
   | .leaf _ => true
